@@ -149,8 +149,38 @@ func (c *Ctx) isWork(in ssa.Instruction, input *ssa.Parameter) (string, bool) {
 		if strings.HasPrefix(name, "(*regexp.Regexp).") || name == "encoding/json.NewDecoder" || name == "(*encoding/json.Decoder).Token" {
 			return "call " + name, true
 		}
+		// the input handed to a function of the module: whatever it does with it is work — unless it only builds
+		// an error value from it (a constructor: its one result is an error type)
+		if inRepo(f) {
+			for _, a := range x.Call.Args {
+				if rootParam(a) != input {
+					continue
+				}
+				res := f.Signature.Results()
+				if res.Len() == 1 && implementsError(res.At(0).Type()) {
+					continue
+				}
+				return "call of " + FnName(f) + " with the input", true
+			}
+		}
 	}
 	return "", false
+}
+
+// implementsError: t (or *t) has an Error() string method.
+func implementsError(t types.Type) bool {
+	if isErrorType(t) {
+		return true
+	}
+	for _, tt := range []types.Type{t, types.NewPointer(t)} {
+		ms := types.NewMethodSet(tt)
+		for i := 0; i < ms.Len(); i++ {
+			if ms.At(i).Obj().Name() == "Error" {
+				return true
+			}
+		}
+	}
+	return false
 }
 
 func (c *Ctx) RuleLimitFirst(fn *ssa.Function, inputIdx int, sentinel *ssa.Global, depth int) {
@@ -253,7 +283,7 @@ func (c *Ctx) checkWorkDominated(fn *ssa.Function, input *ssa.Parameter, okBlk *
 	for _, b := range fn.Blocks {
 		for _, in := range b.Instrs {
 			what, ok := c.isWork(in, input)
-			if !ok {
+			if !ok || in == ssa.Instruction(after) {
 				continue
 			}
 			n++
@@ -318,7 +348,12 @@ func (c *Ctx) checkTooLongEdge(fn *ssa.Function, gi *guardInfo, input *ssa.Param
 			}
 		}
 	}
-	if !usesSentinel {
+	// "wraps": the sentinel is the operand of a %w verb (or the error value itself), so that errors.Is finds it —
+	// printing it with %v / its Error() text gives the same message and loses the identity
+	if usesSentinel && !wrapsGlobal(b, sentinel, 2) {
+		usesSentinel = false
+		c.add("violated", "C18.L", fn, ret.Pos(), "the too-long edge mentions "+sentinel.Name()+" but does not wrap it (it must be bound to a %w verb or be the error itself): errors.Is(err, "+sentinel.Name()+") is false")
+	} else if !usesSentinel {
 		c.add("violated", "C18.L", fn, ret.Pos(), "too-long edge does not wrap "+sentinel.Name())
 	}
 	if leaksInput {
@@ -327,6 +362,65 @@ func (c *Ctx) checkTooLongEdge(fn *ssa.Function, gi *guardInfo, input *ssa.Param
 	if usesSentinel && !leaksInput {
 		c.add("discharged", "C18.L", fn, ret.Pos(), "too-long edge wraps "+sentinel.Name()+" and carries no input bytes")
 	}
+}
+
+// wrapsGlobal: in block b (or in a function of the module called from it, to the given depth) the sentinel g is
+// bound to a %w verb of fmt.Errorf, or is passed on as an error value (argument of a module function, return operand).
+func wrapsGlobal(b *ssa.BasicBlock, g *ssa.Global, depth int) bool {
+	isG := func(v ssa.Value) bool {
+		v = strip1iface(v)
+		u, ok := v.(*ssa.UnOp)
+		return ok && u.Op == token.MUL && u.X == ssa.Value(g)
+	}
+	for _, in := range b.Instrs {
+		switch x := in.(type) {
+		case *ssa.Call:
+			f := x.Call.StaticCallee()
+			if f != nil && f.String() == "fmt.Errorf" && len(x.Call.Args) == 2 {
+				format, ok := constString(x.Call.Args[0])
+				if !ok {
+					continue
+				}
+				args := varargs(x.Call.Args[1])
+				k := 0
+				for _, it := range parseFormat(format) {
+					if it.Lit != "" || it.Verb == 0 {
+						continue
+					}
+					ix := k
+					if it.ArgIx > 0 {
+						ix = it.ArgIx - 1
+					}
+					k = ix + 1
+					if ix < len(args) && args[ix] != nil && it.Verb == 'w' && isG(args[ix]) {
+						return true
+					}
+				}
+				continue
+			}
+			if f != nil && inRepo(f) {
+				for _, a := range x.Call.Args {
+					if isG(a) && isErrorType(a.Type()) {
+						return true // handed on as an error value (the constructor keeps it as the wrapped error: S-WRAP ii)
+					}
+				}
+				if depth > 0 {
+					for _, cb := range origin(f).Blocks {
+						if wrapsGlobal(cb, g, depth-1) {
+							return true
+						}
+					}
+				}
+			}
+		case *ssa.Return:
+			for _, r := range x.Results {
+				if isG(r) {
+					return true
+				}
+			}
+		}
+	}
+	return false
 }
 
 // loadsGlobal: fn, or a function of the module it calls directly (to the given depth), loads g.
